@@ -1,6 +1,6 @@
 (** Protocol operations for C02 (see Lib/Val.v). *)
 From Coq Require Import ZArith List Bool String.
-From Low Require Import Lib.Bits Lib.BitSeq Lib.Val Model.Rank Model.Select Model.BitmapNext Model.BitmapOf Spec.RankSpec Spec.SelectSpec Spec.SelectRankSpec.
+From Low Require Import Lib.Bits Lib.BitSeq Lib.Val Model.Rank Model.Select Model.BitmapNext Model.BitmapOf Spec.RankSpec Spec.SelectSpec Spec.SelectRankSpec Spec.SelectLinSpec.
 Import ListNotations.
 Open Scope string_scope.
 Open Scope Z_scope.
@@ -409,5 +409,48 @@ Definition ops_C02_heldidx : list opdef := [
        | _ => VBad end) |}
 ].
 
+(** * very large bitmaps, run-length encoded [[count, word], ...] (expanded the same way on both sides).
+      The faithful model is quadratic in the number of words (a list read per bit), so these operations evaluate the
+      LINEAR-time [lin_Select] / [lin_IndexSelect32] of Spec/SelectLinSpec.v instead; Properties/C02.v
+      ([C02_rle_run_is_model...]) proves that this IS the model's output and the specification value on the whole
+      domain.  A long index is rendered as run-length encoded first differences on both sides. *)
+Definition c02_as_pair (v : val) : option (Z * Z) :=
+  match v with VL [VZ a; VZ b] => Some (a, b) | _ => None end.
+Definition c02_as_runs (v : val) : option (list (Z * Z)) :=
+  match v with VL l => opt_all (map c02_as_pair l) | _ => None end.
+Definition c02_runs_okb (runs : list (Z * Z)) : bool :=
+  forallb (fun p => (0 <=? fst p) && word_okb (snd p)) runs.
+Definition c02_vruns (l : list (Z * Z)) : val := VL (map (fun p => VL [VZ (fst p); VZ (snd p)]) l).
+
+Definition c02_rle_select (a : list val) : val :=
+  match a with
+  | [runs; i] => match c02_as_runs runs, as_z i with
+      | Some runs, Some i =>
+          if c02_runs_okb runs then
+            match lin_Select (c02_expand_rle runs) i with
+            | Some p => c02_pair p
+            | None => VBad   (* i outside [0, number of 1-bits) *)
+            end
+          else VBad
+      | _, _ => VBad end
+  | _ => VBad
+  end.
+
+Definition c02_rle_index (a : list val) : val :=
+  match a with
+  | [runs] => match c02_as_runs runs with
+      | Some runs =>
+          if c02_runs_okb runs then c02_vruns (c02_index_rle (lin_IndexSelect32 (c02_expand_rle runs))) else VBad
+      | None => VBad end
+  | _ => VBad
+  end.
+
+Definition ops_C02_rle : list opdef := [
+  {| op_name := "bitmap.Select32/rle"; op_run := c02_rle_select; op_spec := fun_spec c02_rle_select |};
+  {| op_name := "bitmap.Select32R64/rle"; op_run := c02_rle_select; op_spec := fun_spec c02_rle_select |};
+  {| op_name := "bitmap.IndexSelect32/rle"; op_run := c02_rle_index; op_spec := fun_spec c02_rle_index |};
+  {| op_name := "bitmap.IndexSelect32R64/rle"; op_run := c02_rle_index; op_spec := fun_spec c02_rle_index |}
+].
+
 Definition ops_C02 : list opdef :=
-  ops_C02_base ++ ops_C02_widen ++ ops_C02_next ++ ops_C02_toarray ++ ops_C02_prev ++ ops_C02_heldidx.
+  ops_C02_base ++ ops_C02_widen ++ ops_C02_next ++ ops_C02_toarray ++ ops_C02_prev ++ ops_C02_heldidx ++ ops_C02_rle.
